@@ -1,4 +1,4 @@
-// verif:properties C15
+// verif:properties C15 C14
 package types
 
 import "net/netip"
